@@ -61,6 +61,9 @@ def names_for(n, naming):
         return list('ABCDEFGH'[:n])
     if naming == 'rev':
         return list('ABCDEFGH'[:n])[::-1]
+    if isinstance(naming, (list, tuple)):
+        # a permutation: node i (topological index) is called 'ABC..'[naming[i]]
+        return ['ABCDEFGH'[k] for k in naming]
     raise ValueError(naming)
 
 
